@@ -37,6 +37,7 @@ type Report struct {
 	Replay   string            `json:"replay,omitempty"`
 	Inconcl  []string          `json:"inconclusive,omitempty"`
 	WallMs   int64             `json:"wall_ms"`
+	Digest   string            `json:"digest,omitempty"` // C19: hash of all per-step result/event/state digests of the first run
 	runner   *Runner
 }
 
